@@ -85,6 +85,10 @@ func Boot(mode string, k *plan.Knobs) error {
 	if err := config.InitDerivedConfig("simnode"); err != nil {
 		return err
 	}
+	if k.QueryTimeoutSec > 0 {
+		// the run-time setter behind the query-timeout API (the YAML path clamps small values)
+		config.SetQueryTimeoutSecs(k.QueryTimeoutSec)
+	}
 	if k.CardLimit > 0 {
 		writer.SetCardinalityLimit(uint16(k.CardLimit))
 	}
@@ -193,6 +197,9 @@ func Query(op *plan.Op) (*QueryResult, error) {
 		req["includeNulls"] = v
 	}
 	qid := rutils.GetNextQid()
+	if v, ok := op.Args["qid"].(float64); ok && v > 0 {
+		qid = uint64(v) // plan-chosen id so that a canceller client can name the query
+	}
 	resp, _, _, err := pipesearch.ParseAndExecutePipeRequest(req, qid, op.Org, time.Now(), "-1", nil)
 	if err != nil {
 		return nil, err
